@@ -10,13 +10,15 @@
 /* ---- recording model of EXP_resolve (the macro EXPresolve calls it for operands that are not resolved yet) ---- */
 #define NOPS 3
 static Expression g_ops[NOPS]; static int g_defined[NOPS];          /* ghost: does operand k's name resolve? */
-static int g_calls[NOPS], g_loud_failures; static Type g_last_check[NOPS];
+static int g_calls[NOPS], g_loud_failures; static Type g_last_check[NOPS]; static Type g_ret[NOPS];   /* what a defined operand's type is (default INTEGER) */
+static int g_rep_calls, g_rep_last;
+void ERRORreport_with_symbol(enum ErrorCode errnum, Symbol *sym, ...) { (void)sym; g_rep_calls++; g_rep_last = errnum; }
 void EXP_resolve(Expression e, Scope s, Type typecheck)
 {
     (void)s;
     for (int k = 0; k < NOPS; k++) if (g_ops[k] == e) {
         g_calls[k]++; g_last_check[k] = typecheck;
-        if (g_defined[k]) { e->symbol.resolved = RESOLVED; e->return_type = Type_Integer; }
+        if (g_defined[k]) { e->symbol.resolved = RESOLVED; e->return_type = g_ret[k] ? g_ret[k] : Type_Integer; }
         else if (typecheck == Type_Unknown) { /* contract: asked not to complain - returns silently, operand stays unresolved */ }
         else { e->symbol.resolved |= RESOLVE_FAILED; g_loud_failures++; }          /* UNDEFINED reported (an ERROR) */
     }
@@ -26,7 +28,8 @@ static void setup(struct Expression_ *e, struct Expression_ ops[NOPS], int d0, i
 {
     Type_Unknown = &t_unknown; Type_Dont_Care = &t_dontcare; Type_Integer = &t_int; Type_Logical = &t_logical;
     int d[NOPS] = { d0, d1, d2 };
-    for (int k = 0; k < NOPS; k++) { g_ops[k] = &ops[k]; g_defined[k] = d[k]; g_calls[k] = 0; ops[k].symbol.resolved = 0; ops[k].return_type = &t_unknown; }
+    g_rep_calls = 0;
+    for (int k = 0; k < NOPS; k++) { g_ret[k] = 0; g_ops[k] = &ops[k]; g_defined[k] = d[k]; g_calls[k] = 0; ops[k].symbol.resolved = 0; ops[k].return_type = &t_unknown; }
     g_loud_failures = 0;
     e->e.op1 = &ops[0]; e->e.op2 = &ops[1]; e->e.op3 = &ops[2]; e->symbol.resolved = 0;
 }
@@ -65,4 +68,36 @@ void h_op_relational(void)
     __CPROVER_assert(r == &t_logical, "a comparison is of type LOGICAL");
     if (in_d0 && in_d1) __CPROVER_assert((e.symbol.resolved & RESOLVED) && !(e.symbol.resolved & RESOLVE_FAILED) && g_loud_failures == 0, "a comparison of two defined operands is resolved without a diagnostic");
     else __CPROVER_assert((e.symbol.resolved & RESOLVE_FAILED) && g_loud_failures >= 1, "C04 an undefined name on either side of a comparison is reported and marks the comparison failed");
+}
+
+/* C06/C04: indexing x[i]: for every type x can have - aggregate, string, binary, generic, a select with any mix of aggregate and
+ * other members, anything else - the resolver answers without touching invalid memory; indexing something that has no aggregate
+ * in it is rejected with INDEXING_ILLEGAL */
+void h_op_array_like(void)
+{
+    IN(int, in_kind); IN(int, in_m0); IN(int, in_m1); IN(int, in_nitems);
+    static struct Expression_ e, ops[NOPS]; static struct Scope_ s;
+    static struct Scope_ t_x, t_item[2], t_base, t_runtime, t_binary, t_generic; static struct TypeHead_ h_x, h_item[2]; static struct TypeBody_ b_x, b_item[2];
+    static struct Linked_List_ items; static struct Link_ mk, l0, l1; static char nm[2] = "x";
+    __CPROVER_assume(in_kind >= 0 && in_kind <= 6 && in_nitems >= 1 && in_nitems <= 2);
+    setup(&e, ops, 1, 1, 1);
+    static struct TypeHead_ h_rt; static struct TypeBody_ b_rt; t_runtime.u.type = &h_rt; h_rt.body = &b_rt; b_rt.type = runtime_; b_rt.base = 0;   /* the built-in types are complete type objects */
+    Type_Runtime = &t_runtime; Type_Binary = &t_binary; Type_Generic = &t_generic;
+    e.e.op_code = OP_ARRAY_ELEMENT; e.symbol.name = nm;
+    t_x.u.type = &h_x; h_x.body = &b_x; t_x.symbol.name = nm; t_x.symbol.resolved = 1; b_x.base = 0; b_x.list = 0;
+    /* kinds: 0 aggregate, 1 string, 2 binary, 3 generic, 4 select, 5 some other type (integer), 6 the run-time type */
+    b_x.type = in_kind == 0 ? list_ : in_kind == 1 ? string_ : in_kind == 2 ? binary_ : in_kind == 3 ? generic_ : in_kind == 4 ? select_ : integer_;
+    if (in_kind == 0) b_x.base = &t_base;
+    int aggr[2] = { in_m0 != 0, in_m1 != 0 };
+    for (int k = 0; k < 2; k++) { t_item[k].u.type = &h_item[k]; h_item[k].body = &b_item[k]; b_item[k].type = aggr[k] ? (k ? set_ : list_) : integer_; b_item[k].base = aggr[k] ? &t_base : 0; }
+    items.mark = &mk; mk.next = &l0; l0.prev = &mk; l0.data = &t_item[0];
+    if (in_nitems == 2) { l0.next = &l1; l1.prev = &l0; l1.data = &t_item[1]; l1.next = &mk; mk.prev = &l1; } else { l0.next = &mk; mk.prev = &l0; }
+    if (in_kind == 4) b_x.list = &items;
+    g_ret[0] = in_kind == 6 ? &t_runtime : &t_x;
+    Type r = EXPresolve_op_array_like(&e, &s);
+    int n_aggr = 0; for (int k = 0; k < 2; k++) if (k < in_nitems && aggr[k]) n_aggr++;
+    int indexable = in_kind == 0 || in_kind == 1 || in_kind == 2 || in_kind == 3 || in_kind == 6 || (in_kind == 4 && n_aggr > 0);
+    if (!indexable) __CPROVER_assert(r == &t_unknown && g_rep_calls >= 1 && g_rep_last == INDEXING_ILLEGAL, "C04 indexing something that has no aggregate in it (a select of non-aggregates included) is rejected with INDEXING_ILLEGAL");
+    else __CPROVER_assert(r != &t_unknown && g_rep_last != INDEXING_ILLEGAL, "indexing an aggregate, a string, a binary, a generic value or a select with an aggregate member is accepted");
+    if (in_kind == 0 || (in_kind == 4 && n_aggr > 0)) __CPROVER_assert(r == &t_base, "the element type is the aggregate's base type");
 }
